@@ -32,6 +32,17 @@ def validateAll : List Dict → Nat → Slice → Res Unit
       | .fault f => .fault f
     | r => r
 
+/-- deep read of a field list, walked exactly like `validateAll` -/
+def walkAll : List Dict → Nat → Slice → Res (List Val)
+  | [], _, _ => .ok []
+  | [d], _, data => (d.walk data).bind fun v => .ok [v]
+  | d :: d' :: ds, pos, data =>
+    (d.walk data).bind fun v =>
+      match data.splitAt (ceilMul (pos + d.ssize) d'.align - pos) with
+      | .ok (_, rest) => (walkAll (d' :: ds) (ceilMul (pos + d.ssize) d'.align) rest).bind fun vs => .ok (v :: vs)
+      | .err e => .err e
+      | .fault f => .fault f
+
 def AllSizedButLast : List Dict → Prop
   | [] => True
   | [_] => True
